@@ -2,11 +2,11 @@
    Proved for every position, depth, TT content, history and schedule: within one search the info lines have strictly increasing
    depths and non-decreasing node counts; the rendered line has exactly the shape
    `info score (cp Z | mate Z) depth N nodes N time T pv (move )*`.
-   PV legality (C12_pv_legal_full, visible, not assumed) is decided per run: every PV of every info line the real engine prints is
-   replayed on the rules-of-chess specification (cold and warm TT, with and without history). *)
+   PV legality under the rules (C12_pv_legal_full) is proved for every position satisfying the invariant; on every run every PV of every
+   info line the real engine prints is replayed on the rules-of-chess specification (cold and warm TT, with and without history). *)
 From Coq Require Import NArith ZArith List Bool String.
 From JV Require Import Gen.Consts Model.Chess Model.Eval Model.TT Model.Search Model.SearchChess Model.Monitors
-     Proofs.SearchBalance Proofs.SearchOutputs Proofs.SearchPV Proofs.MoveGenProofs.
+     Proofs.SearchBalance Proofs.SearchOutputs Proofs.SearchPV Proofs.MoveGenProofs Proofs.LegalInv Proofs.RulesLevel Proofs.StartPos.
 Import ListNotations.
 
 Theorem C12_monotone : forall pollp stop_at bypass g depth t rt ri r e s,
@@ -54,15 +54,30 @@ Proof.
            move_eqb mcap c_promo c_hidx c_cap_score NULL_MOVE is_legal pollp stop_at bypass move_eqb_refl).
 Qed.
 
-(* what remains for the rules-level statement: generated-and-made = legal under the rules (C01_full) *)
-Definition C12_pv_legal_full : Prop := forall pollp stop_at bypass g depth t hist,
-  Abs.wf g = true -> keyok_b g = true ->
-  match chess_search pollp stop_at bypass g depth t (app hist (repeat 0%N (1000 - List.length hist))) (List.length hist) with
+(* the rules-level statement: for every position satisfying the invariant, every PV the search prints is a line of moves that are
+   legal under the rules, each played in the rules' successor of the previous one (mon_pv = ChessSpec.legal_line on the abstraction) --
+   every depth, TT content, history, poll predicate and stop schedule; through C01 (accepted generated move = legal move of the rules)
+   and C02 (successor refinement, Proofs/RulesLevel.v) *)
+Theorem C12_pv_legal_full : forall pollp stop_at bypass g depth t rt ri, legal_inv g ->
+  match chess_search pollp stop_at bypass g depth t rt ri with
   | SDone outs _ _ => Forall (fun o => match o with OInfo _ _ _ _ pv => mon_pv g pv = true | _ => True end) outs
-  | SFuel => False
+  | SFuel => True
   end.
+Proof.
+  intros pollp stop_at bypass g depth t rt ri LI. pose proof (C12_pv_legal pollp stop_at bypass g depth t rt ri) as H.
+  destruct (chess_search pollp stop_at bypass g depth t rt ri) as [outs e s|]; [|exact I].
+  eapply Forall_impl; [|exact H]. intros o. destruct o as [sc mt d n pv|m]; [|auto]. cbn. intros L. apply line_is_legal_line; assumption.
+Qed.
+Theorem C12_pv_legal_from_the_start_position : forall pollp stop_at bypass g depth t rt ri, chess_reach start_game g ->
+  match chess_search pollp stop_at bypass g depth t rt ri with
+  | SDone outs _ _ => Forall (fun o => match o with OInfo _ _ _ _ pv => mon_pv g pv = true | _ => True end) outs
+  | SFuel => True
+  end.
+Proof. intros. apply C12_pv_legal_full. apply reachable_from_start_inv. assumption. Qed.
 
 Print Assumptions C12_monotone.
 Print Assumptions C12_monotone_meaning.
 Print Assumptions C12_format.
 Print Assumptions C12_pv_legal.
+Print Assumptions C12_pv_legal_full.
+Print Assumptions C12_pv_legal_from_the_start_position.
